@@ -11,7 +11,7 @@ import ast
 from typing import Any, Dict, List, Optional, Set, Tuple
 
 from .repo import AnalysisError, FuncInfo, Repo, func_body
-from .terms import (C, Norm, Scope, Term, Typer, conjuncts, key, lin_add, mk_and, mk_not, mk_or, mk_sub, show)
+from .terms import (C, Norm, Scope, Term, Typer, conjuncts, key, lin_add, mk_and, mk_not, mk_or, mk_sub, refine_lookups, show, subterms)
 
 MUTATORS = {"append", "add", "pop", "clear", "update", "insert", "remove", "extend", "discard", "popitem", "setdefault",
             "difference_update", "intersection_update", "sort", "reverse", "__setitem__", "__delitem__"}
@@ -156,6 +156,53 @@ class Summary:
         for e in self.events:
             out.append("%3d %s%s  @%s:%d" % (e.seq, "  " * len(e.chain), e.describe(), e.func.split(".")[-1], e.line))
         return "\n".join(out)
+
+
+def lazy_init_name(st: ast.stmt) -> Optional[str]:
+    """`if n is None: n = <expr>` (nothing else, no else-branch) -> n"""
+    if not (isinstance(st, ast.If) and not st.orelse and len(st.body) == 1 and isinstance(st.test, ast.Compare) and len(st.test.ops) == 1
+            and isinstance(st.test.ops[0], ast.Is) and isinstance(st.test.left, ast.Name)
+            and isinstance(st.test.comparators[0], ast.Constant) and st.test.comparators[0].value is None):
+        return None
+    a = st.body[0]
+    if isinstance(a, ast.Assign) and len(a.targets) == 1 and isinstance(a.targets[0], ast.Name) and a.targets[0].id == st.test.left.id:
+        return st.test.left.id
+    if isinstance(a, ast.AnnAssign) and a.value is not None and isinstance(a.target, ast.Name) and a.target.id == st.test.left.id:
+        return st.test.left.id
+    return None
+
+
+def lazy_init_names(body: List[ast.stmt]) -> Set[str]:
+    """names whose every assignment inside the loop body is one `if n is None: n = <expr>` statement"""
+    cand: Dict[str, int] = {}
+    inner: Set[int] = set()
+    for s_ in body:
+        for n in ast.walk(s_):
+            nm = lazy_init_name(n) if isinstance(n, ast.If) else None
+            if nm is not None:
+                cand[nm] = cand.get(nm, 0) + 1
+                inner.add(id(n.body[0]))
+    out = set()
+    for nm, k in cand.items():
+        if k != 1:
+            continue
+        others = 0
+        for s_ in body:
+            for n in ast.walk(s_):
+                if isinstance(n, (ast.Assign, ast.AnnAssign, ast.AugAssign, ast.For, ast.With, ast.NamedExpr)) and id(n) not in inner:
+                    if isinstance(n, ast.NamedExpr):
+                        hit = n.target.id == nm
+                    elif isinstance(n, ast.For):
+                        hit = nm in assigned_names([ast.Assign(targets=[n.target], value=ast.Constant(0), lineno=n.lineno)])
+                    elif isinstance(n, ast.With):
+                        hit = any(i.optional_vars is not None and nm in assigned_names([ast.Assign(targets=[i.optional_vars], value=ast.Constant(0), lineno=n.lineno)])
+                                  for i in n.items)
+                    else:
+                        hit = nm in assigned_names([n])
+                    others += bool(hit)
+        if not others:
+            out.add(nm)
+    return out
 
 
 def assigned_names(stmts: List[ast.stmt]) -> Set[str]:
@@ -313,6 +360,7 @@ class _Run:
         self.inlinings: Dict[int, FuncInfo] = {}                 # expansion id -> helper expanded in place
         self.inl_anchor: Dict[int, Tuple[Tuple[int, ...], int, int]] = {}   # expansion id -> (path, statement, event index) of the call
         self.tests2: Dict[Tuple[Tuple[int, ...], int], Term] = {}  # (expansion path, id(If/While node)) -> normalised test
+        self.lazy_lv: Set[Term] = set()
         self.tests: Dict[int, Term] = {}
         self.iters: Dict[int, Term] = {}
 
@@ -851,6 +899,7 @@ class _Run:
         base_pc = list(ctx.pc)
         # true branch
         ctx.pc = base_pc + [Conj(cond, "branch", st.lineno)]
+        self._refine_env(cond)
         out_t = self.block(st.body)
         env_t = dict(ctx.scope.env)
         extra_t = list(ctx.pc[len(base_pc) + 1:])      # what survived jumps inside the branch
@@ -858,17 +907,26 @@ class _Run:
         ctx.scope.env = dict(base_env)
         ncond = mk_not(cond)
         ctx.pc = base_pc + [Conj(ncond, "branch", st.lineno)]
+        self._refine_env(ncond)
         out_f = self.block(st.orelse) if st.orelse else {"fall"}
         env_f = dict(ctx.scope.env)
         extra_f = list(ctx.pc[len(base_pc) + 1:])
         # merge
         t_falls, f_falls = "fall" in out_t, "fall" in out_f
         ctx.scope.env = self._merge_env(cond, base_env, env_t if t_falls else None, env_f if f_falls else None)
+        lz = lazy_init_name(st)
+        if lz is not None and t_falls and base_env.get(lz) in self.lazy_lv:
+            val = env_t.get(lz)
+            doms = {l[1] for l in ctx.loops}
+            if val is not None and not any(x[0] == "lv" or (x[0] == "e" and x[1] in doms) for x in subterms(val)):
+                ctx.scope.env[lz] = val     # computed on first use from things that do not change in the loop: the same value every time
         ctx.pc = base_pc
         if not t_falls and f_falls:
             ctx.pc = base_pc + [Conj(ncond, self._leave_prov(out_t), st.lineno)] + extra_f
+            self._refine_env(ncond)
         elif t_falls and not f_falls:
             ctx.pc = base_pc + [Conj(cond, self._leave_prov(out_f), st.lineno)] + extra_t
+            self._refine_env(cond)
         elif t_falls and f_falls and (extra_t or extra_f):
             # both fall, but a nested jump removed part of a branch: (cond and survived_t) or (not cond and survived_f)
             provs = {c.prov for c in extra_t + extra_f}
@@ -877,6 +935,17 @@ class _Run:
             ff = mk_and([ncond] + [c.term for c in extra_f])
             ctx.pc = base_pc + [Conj(mk_or([tt, ff]), prov, st.lineno)]
         return out_t | out_f
+
+    def _refine_env(self, fact: Term) -> None:
+        """a membership fact turns the `.get` lookups already bound to local names into subscripts"""
+        if not any(c[0] == "cmp" and c[1] == "in" for c in conjuncts(fact)):
+            return
+        env = self.cur.scope.env
+        for n, v in list(env.items()):
+            if isinstance(v, tuple):
+                v2 = refine_lookups(v, fact)
+                if v2 is not v and v2 != v:
+                    env[n] = v2
 
     def _havoc(self, names: Set[str]) -> None:
         env = self.cur.scope.env
@@ -933,6 +1002,9 @@ class _Run:
         accs = self._accumulators(st.body)
         pre = dict(ctx.scope.env)
         self._havoc(names - set(accs))
+        for n in lazy_init_names(st.body):
+            if pre.get(n) == C(None) and n not in accs and ctx.scope.env.get(n, ("?",))[0] == "lv":
+                self.lazy_lv.add(ctx.scope.env[n])      # None until first needed, then one value for the rest of the loop
         for n in accs:
             ctx.scope.env[n] = ("lv", n, 0)
         self.norm.bind_target(st.target, it, ctx.scope)
